@@ -83,7 +83,12 @@ static rnode* gen_node(struct vh_rng* r, const struct gen_cfg* cfg, int* budget,
       n->val = n->width == 1 ? (v & 0xffff) : n->width == 2 ? (v & 0xffffffffu) : v;
       return n;
     }
-    case 5: n = rn_new(R_SIMPLE); n->val = 20 + vh_below(r, 4); return n;
+    case 5:
+      n = rn_new(R_SIMPLE);
+      /* the construction API accepts any simple value 0..255; only false/true/null/undefined come out of the decoder */
+      if (!cfg->assigned_simple_only && vh_below(r, 2)) { static const uint8_t edge[] = {0, 1, 19, 24, 25, 31, 32, 99, 254, 255}; n->val = vh_below(r, 2) ? edge[vh_below(r, sizeof edge)] : vh_below(r, 256); }
+      else n->val = 20 + vh_below(r, 4);
+      return n;
     case 6: { /* empty containers / zero-chunk strings */
       int k = (int)vh_below(r, 6);
       n = rn_new(k < 2 ? R_ARRAY : k < 4 ? R_MAP : k == 4 ? R_BYTES : R_TEXT);
